@@ -97,6 +97,7 @@ pub fn run_line(line: &str) -> String {
     let nopipe = w[w.len() - 1] == "nopipe";
     let spec = &w[1..w.len() - 1];
     let files: Vec<(String, String)> = if spec[0] == "R" {
+        if spec.len() < 8 { return "BAD-CASE".into(); }
         // c05-style program: R <dflt> <entry> <x> <y> <z> U.. H.. decls
         let decls: Vec<crate::c06::Decl> = match spec[8..].iter().map(|x| crate::c06::Decl::parse(x)).collect::<Option<Vec<_>>>() { Some(d) => d, None => return "BAD-CASE".into() };
         let list = |w: &str| -> Vec<usize> { w[1..].split(',').filter_map(|x| x.parse().ok()).collect() };
@@ -170,7 +171,9 @@ pub fn gen_cases(seed: u64, n: usize, _thorough: bool) -> Vec<String> {
         let (u, h) = (pick(&mut rng), pick(&mut rng));
         let ds: Vec<String> = decls.iter().map(|d| d.word()).collect();
         let mode = if rng.chance(1, 4) { "nopipe" } else { "all" };
-        out.push(format!("X R {} {} {} {} {} U{} H{} {} {}", rng.below(3), rng.pick(&entries), rng.range(1, 8), rng.range(1, 4), rng.range(1, 2), u, h, ds.join(" "), mode).split_whitespace().collect::<Vec<_>>().join(" "));
+        // one program in eight names its resources with words one of the targets reserves (c05: `<entry>+R`)
+        let entry = if rng.chance(1, 8) { "CSMAIN+R".to_string() } else { rng.pick(&entries).to_string() };
+        out.push(format!("X R {} {} {} {} {} U{} H{} {} {}", rng.below(3), entry, rng.range(1, 8), rng.range(1, 4), rng.range(1, 2), u, h, ds.join(" "), mode).split_whitespace().collect::<Vec<_>>().join(" "));
     }
     out
 }
